@@ -165,12 +165,21 @@ def run(chk, orch):
                 for mode in modes:
                     for w in ([1, 2, 4] if not quick else ([1, 3] if ":" not in mode else [2])):
                         cell = dict(common.GOLDEN_CELL, threads=w, hashseed=chk.rng.choice([0, 1, 2]),
-                                    sched={"policy": chk.rng.choice(common.POLICIES), "seed": chk.rng.randrange(1000)})
+                                    sched={"policy": chk.rng.choice(common.POLICIES), "seed": chk.rng.randrange(1000)},
+                                    high_memory=(ci % 3 == 2))
                         o = dict(opts, exp_order=list(perm), input_mode=mode.split(":")[0])
                         if ":" in mode:
                             o["list_names"] = mode.split(":")[1]
                         a = common.job_args(spec, o, cell, want=["files"] if True else [])
-                        orch.submit(cell["hashseed"], "scenarios:pipeline", a, tag=("multi", wi, ci))
+                        fnm = "scenarios:pipeline"
+                        if wi == 0 and ci in (1, 3) and ":" not in mode:
+                            # the joint invocation is killed while a later experiment is being processed and resumed: every
+                            # experiment must still equal its stand-alone run
+                            fnm = "scenarios:crash_resume"
+                            a["fault"] = {"kind": "kill", "stage": "construct", "label_rx": r"_processed$", "nth": -1 - ci // 2, "phase": "after"}
+                            a["resume"] = {}
+                            chk.faults["kill_during_a_later_experiment+resume"] += 1
+                        orch.submit(cell["hashseed"], fnm, a, tag=("multi", wi, ci))
                         plan[(wi, ci)] = (perm, mode, cell, a)
                         ci += 1
         solo, multi = {}, {}
@@ -228,7 +237,7 @@ def run(chk, orch):
                 "engine": "pipeline", "oracle": "module:checks.c10",
                 "solos": [{"hashseed": 0, "fn": "scenarios:pipeline",
                            "args": common.job_args(spec, dict(opts, only_exp=i), common.GOLDEN_CELL)} for i in range(spec["n_exp"])],
-                "run": {"hashseed": cell["hashseed"], "fn": "scenarios:pipeline", "args": a2},
+                "run": {"hashseed": cell["hashseed"], "fn": "scenarios:crash_resume" if a2.get("fault") else "scenarios:pipeline", "args": a2},
                 "expected": {"problems": problems[:6], "trace_sha256": res.get("trace_sha")}})
         if quick or chk.time_left() < 60:
             break
